@@ -21,6 +21,22 @@ CLAIMED = {
             "Seeded coherent schemas over names whose concatenations / underscore joins collide are built three times in permuted type and relationship order; Rels() under different seeded map orders must be one identical list with each one-way relationship once and one member of each pair (also after removals). The Invert/Normalize/String laws are evaluated on every relationship value created.",
             "Only fully consistent schemas are judged. The algebraic laws are sampled over a name pool chosen to collide, not enumerated over all strings.",
             "build-order and map-order permutation simulation, metamorphic oracle"),
+    "C17": ("E6-resource", "4/C17",
+            "A SoftResource and a Wrapper (run-time reflect.StructOf struct) of one generated type are driven in lock step by seeded histories of 1..40 well-typed Set calls (28 kinds, boundary values, typed/untyped nil, nil/empty lists, id) and compared with a model and with each other after every call; fresh resources must be the type's zero; Equal/EqualStrict are checked for reflexivity, symmetry and 'differs => not equal' on pairs derived from the history.",
+            "Values are sampled (boundary-biased), not enumerated. nil/empty byte strings and ID lists and typed/untyped nil are the same value. One open known finding (Equal ignores field names; pinned by TestEqual).",
+            "lock-step operation-history simulation of two implementations vs reference model"),
+    "C18": ("E6-resource", "4/C18",
+            "After Copy / New / Type.Copy of a generated resource (soft or wrapped), seeded histories of 1..20 mutations (Set, type edits, MarshalResource with all relationship data, Filter '=' on a to-many, writes through slices obtained from Get) are applied to one side chosen per step while every other side's full observation is compared with its snapshot from just before the step; copy must equal source right after copying.",
+            "Pointees of nullable scalar attributes are not mutated (the statement lists slices only). Sampling over types, values and mutation histories.",
+            "aliasing simulation: mutate one handle, watch the other, over seeded histories"),
+    "C19": ("E4-store", "4/C19",
+            "Seeded histories of 1..40 store operations on one SoftCollection (Add of same/narrower/wider/conflicting resources, soft or wrapped, duplicate and empty IDs; Remove first/middle/last/absent/duplicate; AddAttr/AddRel; SetType on a non-empty collection; later Set on the caller's handle) against an ordered-list model, compared after every step: Len, every At including out-of-range, Resource, type name, each stored resource's field set, definitions and values.",
+            "A name that is both attribute and relationship is never generated; SetType installs types whose same-named fields keep their definitions; writes through slices shared with the caller are not part of the statement and not tested.",
+            "operation-history simulation vs ordered-list reference model"),
+    "C09": ("E4-store", "4/C09",
+            "Range is issued as a read operation on the store states seeded histories reach (SoftCollection with lazily materialised zero values and fields added after storing) and on Resources / WrapperCollection twins holding the same records as wrapped structs; the page is checked by ranks against an independent select -> filter -> order reference, consecutive pages must partition the matches, a permuted initial order must not matter when id is a rule, the input collection must keep its members and order, no panic, non-nil result.",
+            "IDs unique (domain). Sort/filter semantics are sampled; what simulation contributes is the store states and the untouched-input clause. One open known finding (rules on uint64 / *uint64 / *[]byte attributes are skipped; pinned by TestSortResources), recognised only when the page is exactly what skipping those rules gives.",
+            "query-on-simulated-store-states vs reference evaluator, rank-based oracle"),
 }
 
 NA = {
@@ -32,7 +48,7 @@ NA = {
     "C20": "Check/Wrap/BuildType are pure functions of a reflect.Type; the quantifier is over programs (struct declarations), not over runs of anything.",
 }
 
-PLANNED = ["C01", "C02", "C03", "C05", "C08", "C09", "C11", "C12", "C17", "C18", "C19"]
+PLANNED = ["C01", "C02", "C03", "C05", "C08", "C11", "C12"]
 
 
 def main():
@@ -69,6 +85,10 @@ def main():
         "engines": [
             {"name": "E5-schema", "path": "sim/engines/e5schema", "serves_properties": ["C14", "C15", "C16"],
              "kind_free_text": "seeded edit histories on one Schema vs reference model; coherent-schema builder in permuted orders; seeded map-order scheduler"},
+            {"name": "E6-resource", "path": "sim/engines/e6resource", "serves_properties": ["C17", "C18"],
+             "kind_free_text": "SoftResource and Wrapper twins under one Set/Get history vs model; copy/new aliasing histories"},
+            {"name": "E4-store", "path": "sim/engines/e4store", "serves_properties": ["C19", "C09"],
+             "kind_free_text": "SoftCollection histories vs ordered-list model; Range queries on reached store states vs reference evaluator"},
         ],
         "checks": checks,
         "not_applicable": na,
